@@ -73,6 +73,9 @@ def run(ck):
     # the k >= 5 variants stand on the loser trees: their replay / initialisation tables are decided for the tree classes
     # instantiated here (copy-based for small elements, pointer-based for elements larger than two words)
     from rules import c09
+    from rules.parcommon import check_comp_threaded_all
+    nct = check_comp_threaded_all(ck, tu, ("tlx::multiway_merge_detail::", "tlx::multiway_merge", "tlx::stable_multiway_merge"))
+    ck.require(nct >= 2, "no standard ordering algorithm found in the merge functions")
     n_trees = c09.check_trees_in(ck, tu)
     tu_big = ir.extract("witness/C05_multiway_merge.cpp", defines=["WITNESS_T=std::string"], extra_flags=["-include", "string"])
     n_trees += c09.check_trees_in(ck, tu_big)
